@@ -5,6 +5,7 @@ wt=$(mktemp -d /tmp/seedrun-XXXXXX)
 rmdir "$wt"
 git -C /repo worktree add -q --detach "$wt" HEAD || exit 2
 if ! git -C "$wt" apply "$patch"; then echo "PATCH DOES NOT APPLY"; git -C /repo worktree remove --force "$wt"; exit 3; fi
-cd /verif && VERIF_REPO="$wt" ./check "$id" "$tier" 2>&1 | grep -E "VIOLATION|KNOWN-FINDING|violation:|done in|broken|mismatch" | head -80
+cd /verif && VERIF_REPO="$wt" ./check "$id" "$tier" 2>&1 | grep -E "VIOLATION|KNOWN-FINDING|violation:|done in|broken|mismatch" | cut -c1-400 | awk "NR<=60 || /done in|^VIOLATION/" | head -200
 rc=$?
 git -C /repo worktree remove --force "$wt"
+cd /verif && python3 lib/regen.py "$id" >/dev/null 2>&1
